@@ -211,6 +211,25 @@ def avg_loss(case):
       pad[MASK] = np.zeros(2, bool)
       got2 = fedjax.evaluate_average_loss(jparams(p), batches + [pad], rng, per_ex, regz)
       cmp_scalar(got2, want, 'evaluate_average_loss with a trailing fully padded batch', nc)
+      if n >= 2 and (bs, k) == geoms[0]:
+        # hand-made batches whose real rows are NOT a prefix (masked rows in front / in between, holding garbage)
+        for layout in ('front', 'between', 'split'):
+          rows = [{kk: v[i] for kk, v in ex.items()} for i in range(n)]
+          junk = {kk: (np.asarray(v[0]) * 0 + 97).astype(v.dtype) for kk, v in ex.items()}
+          if layout == 'front':
+            seq, msk = [junk, junk] + rows, [False, False] + [True] * n
+          elif layout == 'between':
+            seq, msk = [rows[0], junk] + rows[1:] + [junk], [True, False] + [True] * (n - 1) + [False]
+          else:
+            seq, msk = [junk] + rows[:1] + [junk], [False, True, False]
+          hb = {kk: np.stack([r[kk] for r in seq]) for kk in ex}
+          hb[MASK] = np.asarray(msk)
+          hbs = [hb] if layout != 'split' else [hb, {**{kk: np.stack([r[kk] for r in rows[1:] + [junk]]) for kk in ex},
+                                                      MASK: np.asarray([True] * (n - 1) + [False])}]
+          got3 = fedjax.evaluate_average_loss(jparams(p), hbs, rng, per_ex, regz)
+          cmp_scalar(got3, want, 'evaluate_average_loss on hand-made batches (masked rows %s the real rows)' % layout, dict(nc, layout=layout))
+          res3 = dict(ale.evaluate_global_params(jparams(p), [(b'h', hbs, jax.random.PRNGKey(5))]))
+          cmp_scalar(res3[b'h'], want, 'AverageLossEvaluator on hand-made batches (masked rows %s the real rows)' % layout, dict(nc, layout=layout))
       clients = [(b'a', batches, jax.random.PRNGKey(2)), (b'o', _padded(other, bs, k), jax.random.PRNGKey(3)),
                  (b'e', [], jax.random.PRNGKey(4))]
       res = dict(ale.evaluate_global_params(jparams(p), clients))
